@@ -228,7 +228,8 @@ def build_wc(named: tuple) -> Tuple[type, set]:
 
     def mk(name: str, is_pred: bool) -> Any:
         def fn(self: Any) -> Any:
-            return ENV.get(self.ctx, name, is_pred)
+            value = ENV.get(self.ctx, name, is_pred)
+            return wc.ToContext() if (not is_pred and value == c09.CTX) else value
         fn.__name__ = name
         return fn
 
